@@ -360,10 +360,10 @@ def model_check(ctx):
         cfg = ctx.path(f"mc_{routine}.cfg")
         lib.write_cfg(cfg, dict(FS_CONSTS, Routine=f'"{routine}"', MaxSaves=3, Strict="FALSE", D=0),
                       "MCInit", "MCNext", invariants=["OldOrNew", "ShapeOut"])
-        r = lib.tlc(ctx, MODULE_MC, cfg, workers=2, timeout=600, expect_violation=True, heap="2g")
+        r = lib.tlc(ctx, MODULE_MC, cfg, workers=1, timeout=600, expect_violation=True, heap="2g")
         return routine, expect, r
 
-    with ThreadPoolExecutor(max_workers=max(1, lib.NCPU // 2)) as ex:
+    with ThreadPoolExecutor(max_workers=lib.NCPU) as ex:
         for routine, expect, r in ex.map(one, MODEL_ROUTINES):
             refuted = "OldOrNew" in r["invariant_violated"]
             ctx.cov["states"] += r["distinct"]
@@ -393,10 +393,10 @@ def gen_cases(ctx, plan):
         lib.write_cfg(cfg, dict(FS_CONSTS, Routine=f'"{routine}"', MaxSaves=maxsaves, Strict="FALSE", D=depth),
                       "GInit", "GNext", invariants=["EmitCase"])
         out = ctx.path(f"cases_{routine}.ndjson")
-        r = lib.tlc(ctx, MODULE_MC, cfg, workers=2, timeout=600, tagged_out={"PROGRAM": out}, heap="2g")
+        r = lib.tlc(ctx, MODULE_MC, cfg, workers=1, timeout=600, tagged_out={"PROGRAM": out}, heap="2g")
         return item, out, r
 
-    with ThreadPoolExecutor(max_workers=max(1, lib.NCPU // 2)) as ex:
+    with ThreadPoolExecutor(max_workers=lib.NCPU) as ex:
         for (routine, depth, maxsaves, params), out, r in ex.map(one, plan):
             ctx.cov["states"] += r["distinct"]
             ctx.cov["transitions"] += r["generated"]
@@ -519,7 +519,8 @@ def judge_trace(ctx, trace, source, kd):
     cfg = ctx.path("t_judge.cfg")
     lib.write_cfg(cfg, {"KnownDeviations": lib.tla_set(kd)}, "TInit", "TNext", invariants=["Done"])
     v = lib.judge(ctx, MODULE_J, cfg, trace, max_events=max(2000, sum(1 for _ in open(trace)) // (2 * lib.NCPU)))
-    ctx.stage("judge", source=source, events=v["events"], violations=len(v["violations"]), deviations=len(v["deviations"]),
+    ctx.stage("judge", source=source, events=v["events"], violations=len(v["violations"]),
+              deviations={f: v.get("dev_" + f, 0) for f in ("F06a", "F06b")},
               rec_old=v.get("rec_old", 0), rec_new=v.get("rec_new", 0), rec_same=v.get("rec_same", 0),
               strict_nonconforming=v.get("strict_nonconforming", 0), wall_s=v["wall_s"])
     return v
@@ -569,9 +570,7 @@ def observed_steps(clog):
 def compare_shapes(ctx, shapes, cases, logs):
     model_units = {}
     for routine, per_save in shapes.items():
-        drv = "lru" if routine.startswith("lru") and routine != "lru_fixed" else routine
-        if routine == "lru_fixed":
-            continue
+        drv = "lru" if routine.startswith("lru") else routine     # lru_fixed: the shape after fixes/F06a.patch
         for variants in per_save.values():
             for steps in variants:
                 model_units.setdefault(drv, set()).update(_units(steps))
@@ -587,9 +586,11 @@ def compare_shapes(ctx, shapes, cases, logs):
 
 # --------------------------------------------------------------------------- classification / replay
 def classify(ctx, v, trace, source, max_reports=5):
-    for _, fid in v["deviations"]:
-        lib.note_known(ctx, fid)
-        ctx.cov["deviations_observed"][fid] = ctx.cov["deviations_observed"].get(fid, 0) + 1
+    for fid in ("F06a", "F06b"):
+        k = v.get("dev_" + fid, 0)
+        if k:
+            lib.note_known(ctx, fid, k)
+            ctx.cov["deviations_observed"][fid] = ctx.cov["deviations_observed"].get(fid, 0) + k
     if not v["violations"]:
         return
     lines = lib.read_lines(trace)
@@ -615,6 +616,14 @@ def classify(ctx, v, trace, source, max_reports=5):
                            "old nor the complete new one for some object, or the store could not be saved and reloaded afterwards; "
                            "no listed deviation explains it"})
     ctx.cov["violating_cases"] = ctx.cov.get("violating_cases", 0) + len(seen)
+    # all violating cases by routine (the VIOLATION lines above are capped)
+    per = {}
+    for ln in v["violations"]:
+        s, _ = lib.run_of_line(lines, ln)
+        h = json.loads(lines[s])
+        per.setdefault(h.get("routine"), set()).add(h.get("case"))
+    ctx.cov["violating_cases_by_routine"] = {r: len(c) for r, c in per.items()}
+    ctx.stage("violations", scenarios=len(v["violations"]), cases_by_routine=ctx.cov["violating_cases_by_routine"])
 
 
 def pipeline(ctx, cases, kd, tag, fs_consts, strict=False, source="cases"):
@@ -643,7 +652,7 @@ def replay(ctx, kd):
     print(lines[0])
     for ln in v["violations"][:10]:
         print(lines[ln - 1])
-    print(json.dumps({k: v[k] for k in v if k != "deviations"} | {"deviations": len(v["deviations"])}))
+    print(json.dumps(v))
     if obj.get("scenario", {}).get("mode") == "dirops_prefix":
         return 0
     return 1 if v["violations"] else 0
@@ -653,7 +662,8 @@ def replay(ctx, kd):
 def selftest(ctx, trace, kd, cases, logs, ctxdir, fs_consts):
     lines = lib.read_lines(trace)
     # a run of a routine without deviations, short enough
-    s = next(i for i, l in enumerate(lines) if lib.is_new(l) and json.loads(l)["routine"] in ("disk", "index", "res"))
+    s = next(i for i, l in enumerate(lines) if lib.is_new(l) and json.loads(l)["routine"] in ("disk", "index", "res")
+             and json.loads(l)["old"]["proj"] != json.loads(l)["new"]["proj"])
     e = s + 1
     while e < len(lines) and not lib.is_new(lines[e]) and e - s < 400:
         e += 1
@@ -678,7 +688,7 @@ def selftest(ctx, trace, kd, cases, logs, ctxdir, fs_consts):
     # (c) binding G: remove the fsync calls from a recorded residency / index trace -> the scenarios that FS.tla then
     #     admits (torn file under its final name) must be judged violations when the REAL loaders see them
     cand = [c for c in cases if c["routine"] in ("res", "index") and sum(1 for o in c["ops"] if o in ("save", "flush")) >= 2
-            and any(x["op"] == "fsync" for x in logs[c["id"]].events) and len(logs[c["id"]].files) >= 1]
+            and any(x["op"] == "fsync" for x in logs[c["id"]].events) and any(f["len"] > 0 for f in logs[c["id"]].files)]
     ok_c = None
     if cand:
         c = dict(cand[len(cand) // 2])
@@ -761,13 +771,18 @@ def run(ctx):
         if e["op"] == "new":
             hdr = e
             continue
-        if hdr["routine"] in seen_r or e["pos"] == 0 or all(f["cls"] == "durable" for f in e["disk"]):
+        if hdr["routine"] in seen_r or e["pos"] == 0 or all(f["cls"] == "durable" for f in e["disk"]) \
+                or hdr["old"]["proj"] == hdr["new"]["proj"] or len(hdr["ops"]) < 3:
             continue
         seen_r.add(hdr["routine"])
         ctx.cov["samples"].append({"case": hdr["def"], "crash_position": e["pos"],
                                    "post_crash_directory": [{k: f[k] for k in ("name", "cls", "len", "vlen", "dlen")} for f in e["disk"]],
                                    "recovered": e["res"], "old": hdr["old"]["proj"], "new": hdr["new"]["proj"], "resave": e["resave"]})
     ctx.cov["roundtrip_mismatch_cases"] = sum(1 for l in lines if lib.is_new(l) and not json.loads(l)["roundtrip_same"])
+    finish_args = dict(n=n, nontrivial=nontrivial, distinct=distinct, gen=gen, per_routine=per_routine, v=v, cases=cases, consts=consts)
+    if ctx.violations:
+        # the verdict is in: no self-test / informational stage on a tree that violates the property
+        return finish(ctx, **finish_args)
     selftest(ctx, trace, kd, cases, logs, ctxdir, consts)
     # informational: the stricter crash model (only a prefix of the directory operations is durable)
     by_r = {}
@@ -784,6 +799,13 @@ def run(ctx):
                                               "note": "stricter crash model than the property states; never a violation"}
     if vs["violations"]:
         raise lib.ToolError("the informational run reported hard violations (sequence gap?)")
+    return finish(ctx, **finish_args)
+
+
+def finish(ctx, n, nontrivial, distinct, gen, per_routine, v, cases, consts):
+    if os.environ.get("VERIF_KEEP") and os.path.exists(ctx.path("c_trace.ndjson")):   # development aid: lib.finish removes the work dir
+        os.makedirs("/tmp/c06", exist_ok=True)
+        shutil.copy(ctx.path("c_trace.ndjson"), "/tmp/c06/last_trace.ndjson")
     ctx.cov["traces_validated_against_impl"] = len(cases)
     ctx.cov["evaluations"] = n
     ctx.cov["distinct_nontrivial"] = nontrivial
